@@ -561,9 +561,22 @@ func (c *Ctx) FPRound32(a *Term) *Term {
 
 // FPToSBV is the raw SMT conversion (RTZ); unspecified out of range.
 func (c *Ctx) FPToSBV(a *Term, w int) *Term {
+	if a.IsConst() && a.Sort.W == 64 {
+		x := math.Trunc(math.Float64frombits(a.Val))
+		lim := math.Ldexp(1, w-1)
+		if x >= -lim && x < lim { // in range: the conversion is specified (truncation)
+			return c.BVConst(uint64(int64(x)), w)
+		}
+	}
 	return c.mk(&Term{Op: OFToSBV, Sort: BV(w), Args: []*Term{a}, Aux: w})
 }
 func (c *Ctx) FPToUBV(a *Term, w int) *Term {
+	if a.IsConst() && a.Sort.W == 64 {
+		x := math.Trunc(math.Float64frombits(a.Val))
+		if x >= 0 && x < math.Ldexp(1, w) {
+			return c.BVConst(uint64(x), w)
+		}
+	}
 	return c.mk(&Term{Op: OFToUBV, Sort: BV(w), Args: []*Term{a}, Aux: w})
 }
 
